@@ -101,6 +101,9 @@ def check(pm: ProgramModel, ctx: Ctx) -> None:
                   ("type", "fcard", "attribute"), fragment=False)
     if ctx.tier == "thorough":
         cd.thorough_pairs(mb, [op for op in BINARY_LOGICAL if op != "XOR"], "VOC")
+    from ..codec import stress_trees
+    cd.report("VOC", "stress-shapes", cd.roundtrip(ctc_model(mb, stress_trees(mb))),
+              "constraint shapes that stress normal forms", ("constraint", "constraint-count"))
     cd.finish_unowned()
     ctx.analysed["C07:compositions"] = cd.n
     ctx.floor("C07", "obligations", len(ctx.obligations), 35)
